@@ -154,3 +154,22 @@ func (s SW) Write(p []byte) (int, error) { return s.W.Write(p) }
 
 // WriteString passes through as one Write call.
 func (s SW) WriteString(str string) (int, error) { return s.W.Write([]byte(str)) }
+
+// FullCount accepts every byte it is given and reports the full count, but the write that
+// reaches offset K also returns an error (a write-then-flush wrapper whose flush failed, a
+// quota writer that fails on the write reaching its limit, a tee with a failed second sink).
+type FullCount struct {
+	K      int
+	Got    []byte
+	Failed bool
+}
+
+// Write never returns a short count.
+func (w *FullCount) Write(p []byte) (int, error) {
+	w.Got = append(w.Got, p...)
+	if len(w.Got) > w.K {
+		w.Failed = true
+		return len(p), ErrInjected
+	}
+	return len(p), nil
+}
